@@ -62,3 +62,12 @@ def extract_struct_priv(unit, src, name, derive=None, kind="struct"):
 
 # inserted at the start of every function body that compares strings (assumed str order axioms, see std_specs.rs)
 STR_ORD = "broadcast use axiom_str_cmp;\n        proof { axiom_str_obeys(); }\n"
+
+
+# `#[derive(Clone)]` on a struct whose fields are all `Copy`: the compiler-generated impl is a field-wise copy.
+# Verus gives derived Clone impls no specification unless the type is Copy, so the documented behaviour is assumed.
+CLONE_STACKFRAME = """impl<'s> Clone for StackFrame<'s> {
+    #[verifier::external_body] // stands for the compiler-generated #[derive(Clone)] (assumed: field-wise copy)
+    fn clone(&self) -> (r: Self) ensures r == *self { unimplemented!() }
+}
+"""
